@@ -152,6 +152,9 @@ def genHdr (cfg : Cfg) (pt : Nat) (dims : Nat × Nat) (tr quant : Nat) (plain : 
     let code : Nat := if (w, h) = (352, 288) then 2 else if (w, h) = (176, 144) then 3 else if (w, h) = (128, 96) then 4
       else if (w, h) = (320, 240) then 5 else if (w, h) = (160, 120) then 6 else if w < 256 ∧ h < 256 then 0 else 1
     let use16 ← coin 1 5
+    -- a size that has a predefined code is written with the custom form half of the time (same dimensions, another encoding)
+    let custom ← coin 1 2
+    let code := if code ≥ 2 ∧ custom then (if w < 256 ∧ h < 256 then 0 else 1) else code
     let code := if code = 0 ∧ use16 then 1 else code
     let db ← coin 1 2
     pure (.sorenson { version := cfg.flavour, tr := tr % 256, sizeCode := code, customW := w, customH := h, picType := pt,
